@@ -76,9 +76,11 @@ def groupPhaseOfFn (fn : String) : String :=
   else if fn = "assignGroupOilInjectionTargets" then "oil" else "any"
 
 def groupPhaseOfField (field : String) : String :=
-  if (field.splitOn "water_").length > 1 ∧ (field.splitOn "_rate_limit").length = 1 then "water"
-  else if (field.splitOn "group.gas_").length > 1 ∧ (field.splitOn "_rate_limit").length = 1 ∧ field ≠ "group.gas_consumption_rate" ∧ field ≠ "group.gas_import_rate" then "gas"
-  else if field = "group.inj_gas_guide_rate" then "gas" else "any"
+  if field ∈ ["group.water_surface_limit", "group.water_reservoir_limit", "group.water_reinject_limit", "group.water_voidage_limit",
+              "group.inj_water_guide_rate", "group.winj_cmode", "group.inj_water_guide_rate_def"] then "water"
+  else if field ∈ ["group.gas_surface_limit", "group.gas_reservoir_limit", "group.gas_reinject_limit", "group.gas_voidage_limit",
+                   "group.inj_gas_guide_rate"] then "gas"
+  else "any"
 
 /-- Two measures convert with the same factor in every unit system (reservoir volume and geometric volume differ in
 FIELD: rb vs ft³). -/
